@@ -2,7 +2,6 @@
 namespace Aplang.Gen
 /-- (file, macro or call) -/
 def outputSites : List (String × String) := [
-  ("interpreter/env.rs", "io::stderr"),
   ("lib.rs", "println!"),
   ("main.rs", "eprintln!"),
   ("main.rs", "eprintln!"),
